@@ -357,7 +357,28 @@ impl FilePersist {
             return Err(e.into());
         }
 
+        // A file written under the old naming scheme is superseded now. It is only removed if
+        // it really describes this shard - under the old scheme it may belong to another shard
+        // whose name collided with ours.
+        self.remove_legacy_shard_meta(&meta.name);
+
         Ok(())
+    }
+
+    /// Remove `{legacy name}.json` if it exists and holds the metadata of shard `name`.
+    fn remove_legacy_shard_meta(&self, name: &str) {
+        let dir = self.config.path.join("shards");
+        let legacy_path = dir.join(format!("{}.json", legacy_sanitize_name(name)));
+        if legacy_path == dir.join(format!("{}.json", sanitize_name(name))) {
+            return;
+        }
+        let belongs_to_shard = fs::read_to_string(&legacy_path)
+            .ok()
+            .and_then(|content| serde_json::from_str::<ShardMeta>(&content).ok())
+            .is_some_and(|legacy| legacy.name == name);
+        if belongs_to_shard {
+            let _ = fs::remove_file(&legacy_path);
+        }
     }
 
     /// Generate a unique batch ID
@@ -673,10 +694,11 @@ impl PersistBackend for FilePersist {
             .path
             .join("shards")
             .join(format!("{}.json", sanitize_name(shard)));
+        self.remove_legacy_shard_meta(shard);
         if meta_path.exists() {
             let _ = fs::remove_file(&meta_path);
-            sync_directory(&self.config.path.join("shards"));
         }
+        sync_directory(&self.config.path.join("shards"));
 
         Ok(())
     }
@@ -921,8 +943,36 @@ fn sync_directory(dir: &std::path::Path) {
     }
 }
 
-/// Sanitize a shard name for use as a filename
+/// Map a shard name to a file name.
+///
+/// Shard names are `{knowledge_graph}:{relation}`. Replacing every ':' by '_' (the old scheme)
+/// maps `a:b_c` and `a_b:c` to the same file, so two relations of different knowledge graphs
+/// overwrote each other's metadata and one of them was empty after a restart. The knowledge-graph
+/// part is therefore escaped so that it never contains a raw '_': the first '_' of the file name
+/// is always the graph/relation separator. Names without such a collision risk (no '_' , '%' or
+/// '/' in the graph name) keep their old file names.
 fn sanitize_name(name: &str) -> String {
+    match name.split_once(':') {
+        Some((kg, relation)) => {
+            let mut out = String::with_capacity(name.len() + 2);
+            for c in kg.chars() {
+                match c {
+                    '%' => out.push_str("%25"),
+                    '_' => out.push_str("%5F"),
+                    '/' => out.push_str("%2F"),
+                    other => out.push(other),
+                }
+            }
+            out.push('_');
+            out.push_str(&relation.replace([':', '/'], "_"));
+            out
+        }
+        None => legacy_sanitize_name(name),
+    }
+}
+
+/// File name used by earlier versions (not injective, see [`sanitize_name`]).
+fn legacy_sanitize_name(name: &str) -> String {
     name.replace([':', '/'], "_")
 }
 
@@ -972,6 +1022,33 @@ mod tests {
         assert_eq!(read.len(), tuples.len());
         for (u, t) in read.iter().zip(&tuples) {
             assert!(lossless::same_bits(&u.data, t), "{:?} != {:?}", u.data, t);
+        }
+    }
+
+    #[test]
+    fn test_shard_file_names_do_not_collide() {
+        let temp = TempDir::new().unwrap();
+        let config = PersistConfig {
+            path: temp.path().to_path_buf(),
+            buffer_size: 100,
+            durability_mode: DurabilityMode::Immediate,
+            ..Default::default()
+        };
+        {
+            let persist = FilePersist::new(config.clone()).unwrap();
+            for (shard, v) in [("a:b_c", 1), ("a_b:c", 2)] {
+                persist.ensure_shard(shard).unwrap();
+                persist
+                    .append(shard, &[Update::insert(Tuple::from_pair(v, v), 10)])
+                    .unwrap();
+                persist.flush(shard).unwrap();
+            }
+        }
+        let persist = FilePersist::new(config).unwrap();
+        for (shard, v) in [("a:b_c", 1), ("a_b:c", 2)] {
+            let read = persist.read(shard, 0).unwrap();
+            assert_eq!(read.len(), 1, "shard {shard}");
+            assert_eq!(read[0].data, Tuple::from_pair(v, v));
         }
     }
 
